@@ -480,7 +480,7 @@ static void run_ps(Rng & rng, const Mod & mod, const M::Model & model, const cha
             for (size_t s = S; s-- > 0; ) for (size_t a = 0; a < A; ++a) { ps.stepUpdateQ(s, a); ops << 1 << s << a; ++nops; if (interleave && rng.coin()) ps.batchUpdateQ(); }
         }
         long guard = 0;
-        while (ps.getQueueLength() > 0 && guard++ < 200000) ps.batchUpdateQ();
+        while (ps.getQueueLength() > 0 && guard++ < 20000) ps.batchUpdateQ();
         M::ValueIteration vi(2000, 0.0);   // tolerance 0 = run the whole horizon; 0.875^2000 is far below one ulp
         auto [bound, vf, viQ] = vi(model);
         (void)bound; (void)vf;
@@ -588,7 +588,7 @@ static void case_psmlm(Rng & rng, const std::string & tier) {
     for (size_t i = order.size(); i > 1; --i) std::swap(order[i - 1], order[rng.below(i)]);
     for (auto [s, a] : order) { ps.stepUpdateQ(s, a); ops << 1 << s << a; ++nops; if (rng.coin(1, 3)) ps.batchUpdateQ(); }
     long guard = 0;
-    while (ps.getQueueLength() > 0 && guard++ < 200000) ps.batchUpdateQ();
+    while (ps.getQueueLength() > 0 && guard++ < 20000) ps.batchUpdateQ();
     M::ValueIteration vi(2000, 0.0);
     auto [bound, vf, viQ] = vi(model);
     (void)bound; (void)vf;
